@@ -185,6 +185,8 @@ fn c02_promote_list_to_set() {
     core::mem::forget(s);
 }
 
+fn cut_set_update(_s: &mut HashSet, _coupon: u32) {}
+
 static mut ARRAY_PROMOTIONS: u32 = 0;
 static mut ARRAY_PROMOTION_LG_K: u8 = 0;
 /// recorder standing in for promote_container_to_array (the replay itself is c02_promote_list_to_array*)
@@ -201,12 +203,13 @@ fn rec_promote_to_array(_c: &Container, _t: HllType, lg_config_k: u8) -> Mode {
 //@ timeout: 1200
 //@ functions: hll::sketch::HllSketch::update_with_coupon
 //@ functions: hll::sketch::promote_container_to_set
-//@ stubs: promote_container_to_array -> recorder (the coupon replay into the array is c02_promote_list_to_array*)
+//@ stubs: promote_container_to_array -> recorder (the coupon replay into the array is c02_promote_list_to_array*); HashSet::update -> no-op cut (the replay into the set is c02_promote_list_to_set)
 //@ bounds: every lg_k in 4..=21 and target type (symbolic); a history of 8 symbolic distinct coupons from the empty sketch
 //@ desc: mode life cycle as a function of lg_k: a full list goes straight to an HLL array iff lg_k < 8 and to a 2^5 set otherwise; the set is created with lg_size 5 <= lg_k - 3 (base case of the invariant lg_size <= lg_k - 3 under which c02_set_promotion_threshold_arithmetic shows that growth ends in the array promotion at 2^(lg_k-3) slots, which bounds the coupon-mode image by 8 + 4 * max(8, 3/4 * 2^(lg_k-3) + 1) bytes)
 #[kani::proof]
 #[kani::unwind(34)]
 #[kani::stub(promote_container_to_array, rec_promote_to_array)]
+#[kani::stub(crate::hll::hash_set::HashSet::update, cut_set_update)]
 fn c18_mode_life_cycle_by_lg_k() {
     let lg_k: u8 = kani::any();
     kani::assume(lg_k >= 4 && lg_k <= 21);
